@@ -170,6 +170,19 @@ func GenerateUnit(w *World, sp *FuncSpec, opts UnitOpts) (res *UnitResult) {
 		x.reset()
 	}
 	x.runUnit()
+	// cover probes (thorough tier): one per block of the unit, over all its visits
+	for _, b := range x.coverOrder {
+		pos := ""
+		for _, ins := range b.Instrs {
+			if ins.Pos().IsValid() && w.Fset != nil {
+				pp := w.Fset.Position(ins.Pos())
+				pos = fmt.Sprintf("%s:%d", filepath.Base(pp.Filename), pp.Line)
+				break
+			}
+		}
+		x.obligs = append(x.obligs, &Oblig{Name: fmt.Sprintf("%s/cover[b%d %s %s]", x.unitName, b.Index, b.Comment, pos), Kind: "cover", Unit: x.unitName,
+			Goal: x.C.Not(x.C.Or(x.coverPCs[b]...)), NAssume: len(x.assumes), Self: -1, Src: "block is reachable (expected: sat)"})
+	}
 	// a callpre clause that no call site used would be a silent hole: the named callee is never called here
 	if sp != nil {
 		for name := range sp.CallPre {
